@@ -75,6 +75,11 @@ CLAIMED["C10"] = dict(
    note="Trusted: Coq kernel+VM, the harness (child-process supervision, limits: 3 s and 96 MiB + 64 x input size per input, 6 GB address space). Level is proof for the boundedness of the executable specification; the runtime claim about the Go code is tested. Coverage-guided fuzzing is not run (go test -fuzz needs no network but is left to the thorough tier's larger grids).",
    ref="5 (C10)")
 
+CLAIMED["C15"] = dict(
+   text="Proof: over the model of the commands (coq/Siftool.v: the flag-to-option translation of add, every command as LoadContainer - one library call - UnloadContainer): add, del and setprim are exactly AddObject / DeleteObject / SetPrimPart of the translated arguments, and arguments the translation refuses never reach the file; a command that fails leaves the header bytes, the descriptor table and every object's bytes unchanged (from the rejected-operation theorem of C02, for every image satisfying the invariant); dump emits exactly the object's Size bytes whatever they are; dump, info, list and header never change the file. The model is compared with the siftool binary built from /repo's working tree on random command histories (new, then add with every flag combination incl. invalid ones, del, setprim, dump, info, list, header, with valid and invalid IDs): exit status, the file after every command, dump's standard output; the clock each command used is read back from what it stamped and must lie in the interval the process ran in. The property is also judged directly on the implementation: failing commands exit non-zero with a message and leave header and objects unchanged, dump equals the object's bytes (binary, empty and multi-megabyte payloads), header/list/info show the true values.",
+   note="Trusted: Coq kernel+VM, the harness (process execution, independent SIF decoder) and ExecS.v. The text layout of header/list/info is not modelled: only the values they must contain are checked on the implementation. Histories with multi-megabyte payloads are judged on the implementation only (not sent through the Coq model).",
+   ref="5 (C15)")
+
 REASON_PENDING = "check not yet built in this revision (model exists; theorem file and families pending) - see DESIGN.md section 10"
 
 def main():
